@@ -1,7 +1,7 @@
 """C11 — malformed input is skipped without harming the connection or its neighbours."""
 import pickle
 
-from vp_lib.api import H, cover
+from vp_lib.api import H, cover, pick
 from vp_lib.carbonenv import make_receiver, drop_receiver, Recorder, quiet
 from vp_lib.shadow import shadow_module
 
@@ -74,7 +74,7 @@ def _udp_invalid(mod, xi, pos, crlf):
   """A datagram whose lines are two well-formed datapoints and one line that is not valid UTF-8."""
   A, B = b'a.first 1 10', b'b.last 2 20'
   lines = [A, B]
-  lines.insert(pos, INVALID[xi])
+  lines.insert(pos, pick(INVALID, xi))
   sep = b'\r\n' if crlf else b'\n'
   p = _mk(mod, 'udp')
   try:
@@ -130,7 +130,7 @@ def _expect(metric, vs, ts):
 
 
 def _fields(mod, kind, vi, ti, extra, metric):
-  vs, ts = NUMS[vi], NUMS[ti]
+  vs, ts = pick(NUMS, vi), pick(NUMS, ti)
   if extra >= 4:
     line = ['', '   ', '\t'][extra - 4]          # empty / blank lines are malformed items too
   else:
@@ -208,9 +208,9 @@ def _frame(mod, which, si):
   p = _mk(mod, 'pickle')
   A, B = ('a.first', (10, 1)), ('b.last', (20, 2))
   if which < len(EXC):
-    result, payload = EXC[which], None
+    result, payload = pick(EXC, which), None
   else:
-    shape = SHAPES[si]
+    shape = pick(SHAPES, si)
     payload = shape
     if isinstance(shape, list):
       payload = [A] + shape + [B]          # malformed entries between two good ones
